@@ -93,7 +93,8 @@ def _decide(rep, module, cfg_text, items, classify, describe, canary):
 class GenBench:
     """One elaborated generator; runs lists of transmissions closed-loop and records every cycle.
 
-    gcfg: {"data": [...], "w": 1|4, "big": bool, "haslen": bool, "ser": bool}
+    gcfg: {"data": [...], "w": 1|2|4 bytes per word, "big": bool, "haslen": bool, "ser": bool,
+           "mlw": max_length_width (default 16; serializer 8)}
     A transmission: {"sp", "ml", "pre": idle cycles before the start strobe, "ready": iterable of bits
     (consumed from the first of those idle cycles on; exhausted -> 1), "idle_sp"/"idle_ml": inputs while idle}.
     """
@@ -107,15 +108,22 @@ class GenBench:
         self.gcfg = gcfg
         data, w = gcfg["data"], gcfg["w"]
         self.w = w
+        self.mlw = gcfg.get("mlw") or (8 if gcfg["ser"] else 16)
+
+        class HalfWordStream(StreamInterface):          # 16-bit payload with one valid bit per byte
+            def __init__(self, payload_width=16):
+                super().__init__(payload_width=16, valid_width=2)
+
         if gcfg["ser"]:
             assert w == 1
             self.dut = StreamSerializer(len(data), domain="sync", data_width=8,
-                                        max_length_width=8 if gcfg["haslen"] else None)
+                                        max_length_width=self.mlw if gcfg["haslen"] else None)
         else:
             self.dut = ConstantStreamGenerator(
                 bytes(data), domain="sync",
-                stream_type=StreamInterface if w == 1 else SuperSpeedStreamInterface,
-                max_length_width=16 if gcfg["haslen"] else None,
+                stream_type={1: StreamInterface, 2: HalfWordStream, 4: SuperSpeedStreamInterface}[w],
+                data_width=16 if w == 2 else None,
+                max_length_width=self.mlw if gcfg["haslen"] else None,
                 data_endianness="big" if gcfg["big"] else "little")
         self.has_olen = bool(gcfg["haslen"] and not gcfg["ser"])
         self.sim = Simulator(self.dut)
@@ -128,7 +136,7 @@ class GenBench:
     def spec_cfg(self):
         g = self.gcfg
         return {"data": list(g["data"]), "w": g["w"], "big": bool(g["big"]), "haslen": bool(g["haslen"]),
-                "olen": self.has_olen}
+                "mlmax": (1 << self.mlw) - 1 if g["haslen"] else len(g["data"]), "olen": self.has_olen}
 
     async def _bench(self, ctx):
         dut, g, w = self.dut, self.gcfg, self.w
@@ -185,6 +193,10 @@ class GenBench:
         return {"cfg": self.spec_cfg(), "steps": self._recs}
 
 
+def _mlmax(g):
+    return (1 << (g.get("mlw") or (8 if g["ser"] else 16))) - 1
+
+
 def _nwords(g):
     return (len(g["data"]) + g["w"] - 1) // g["w"]
 
@@ -196,6 +208,8 @@ def _legal(g, sp, ml):
         return False
     if not g["haslen"] and ml != n:
         return False
+    if g["haslen"] and ml > _mlmax(g):
+        return False
     if g["big"]:
         avail = n - sp * w
         count = min(ml, avail)
@@ -206,7 +220,7 @@ def _legal(g, sp, ml):
 
 def _requests(g, extra=2):
     n = len(g["data"])
-    mls = range(0, n + extra + 1) if g["haslen"] else [n]
+    mls = range(0, min(n + extra, _mlmax(g)) + 1) if g["haslen"] else [n]
     return [(sp, ml) for sp in range(_nwords(g)) for ml in mls if _legal(g, sp, ml)]
 
 
@@ -234,7 +248,7 @@ def _txs_from_behaviour(beh):
 
 
 def _gkey(g):
-    return (len(g["data"]), g["w"], bool(g["big"]), bool(g["haslen"]), bool(g["ser"]))
+    return (len(g["data"]), g["w"], bool(g["big"]), bool(g["haslen"]), bool(g["ser"]), g.get("mlw"))
 
 
 def classify_c27(trace, matched, status, meta):
@@ -273,8 +287,10 @@ def check_C27(rep):
     t0 = time.time()
     phases = {}
     # 1. exhaustive exploration of the specification (TLC chooses the configuration too)
-    mcb = {"MaxLat": 2 if quick else 3, "NsByte": "{1, 2, 3}" if quick else "{1, 2, 3, 4, 5, 6}",
-           "NsWide": "{1, 4, 5, 9}" if quick else "{1, 2, 3, 4, 5, 7, 8, 9, 12}", "ExtraLen": 2}
+    mcb = {"MaxLat": 2 if quick else 3, "NsByte": "{1, 2, 3}" if quick else "{1, 2, 3, 4, 5, 6, 9}",
+           "NsHalf": "{3, 4}" if quick else "{1, 2, 3, 4, 5, 9}",
+           "NsWide": "{1, 4, 5, 9}" if quick else "{1, 2, 3, 4, 5, 7, 8, 9, 12}",
+           "PortMax": "{7, 65535}", "ExtraLen": 2}       # port maximum 7 = max_length_width 3: below 9 and 12
     res = tlc.model_check(SPEC_DIR, "MCConstGen", tlc.render_cfg(_cfg("MCConstGen.cfg.tmpl"), mcb),
                           workers=4 if quick else 8, timeout=1500)
     rep.add_mc("MCConstGen %s" % mcb, res, mcb)
@@ -283,19 +299,20 @@ def check_C27(rep):
     jobs = []      # (gcfg, [tx...], origin)
 
     # 2a. spec -> code: TLC-simulated behaviours, replayed closed-loop (generator and, byte-wide, serializer)
-    simb = dict(mcb, NsByte="{1, 2, 3, 5}", NsWide="{1, 3, 4, 5, 6, 9}")
+    simb = dict(mcb, NsByte="{1, 2, 3, 5, 9}", NsHalf="{2, 3, 5, 9}", NsWide="{1, 3, 4, 5, 6, 9, 12}")
     behs = tlc.simulate(SPEC_DIR, "MCConstGen", tlc.render_cfg(_cfg("MCConstGen_sim.cfg.tmpl"), simb),
                         num=60 if quick else 2000, depth=50, seed=rep.seed * 11 + 3)
     phases["simulate"] = round(time.time() - t0, 1)
     for b in behs:
         c = b[0][1]["cfg"]
-        g = {"data": list(c["data"]), "w": c["w"], "big": c["big"], "haslen": c["haslen"], "ser": False}
+        g = {"data": list(c["data"]), "w": c["w"], "big": c["big"], "haslen": c["haslen"], "ser": False,
+             "mlw": {7: 3, 65535: 16}.get(c["mlmax"]) if c["haslen"] else None}
         txs = _txs_from_behaviour(b)
         if not txs:
             continue
         jobs.append((g, txs, "tlc-simulate"))
         if g["w"] == 1:
-            jobs.append((dict(g, ser=True), txs, "tlc-simulate"))
+            jobs.append((dict(g, ser=True, mlw=3 if g["mlw"] == 3 else None), txs, "tlc-simulate"))
 
     # 2b. code -> spec: exhaustive (start, max_length, stall position) sweep over small constants
     sweep = []
@@ -327,19 +344,59 @@ def check_C27(rep):
         for i in range(0, len(txs), 40):
             jobs.append((g, txs[i:i + 40], "sweep"))
 
+    # 2b'. code -> spec: narrow max_length ports (max_length_width 3, 4, 5) over constants both shorter and
+    # longer than the port can express, every word width, max_length over the *whole* port range 0 .. 2^W - 1
+    port = []
+    for mlw, lens in ((3, (5, 12)), (4, (11, 20)), (5, (20, 37))):
+        for n in lens:
+            for w in (1, 2, 4):
+                if quick and ((w == 1 and mlw == 5) or (mlw == 5 and n < 32 and w == 2)):
+                    continue            # (quick keeps the multi-byte words, where count-after-word can overflow)
+                port.append({"data": data_of(n, 5), "w": w, "big": False, "haslen": True, "ser": False, "mlw": mlw})
+            if not quick or (mlw == 4 and n > 16):
+                port.append({"data": data_of(n, 6), "w": 4, "big": True, "haslen": True, "ser": False, "mlw": mlw})
+            if not quick or (mlw == 3 and n > 8):
+                port.append({"data": data_of(n, 7), "w": 1, "big": False, "haslen": True, "ser": True, "mlw": mlw})
+    for g in port:
+        nwt, top = _nwords(g), _mlmax(g)
+        sps = sorted({0, 1, max(0, nwt - top // g["w"] - 1), nwt - 1} & set(range(nwt))) if quick \
+            else list(range(nwt))
+        txs = []
+        for sp in sps:
+            for ml in range(top + 1):
+                if not _legal(g, sp, ml):
+                    continue
+                nw = -(-min(ml, len(g["data"]) - sp * g["w"]) // g["w"]) if ml else 0
+                pats = [None] + ([nw - 1] if nw else [])
+                if not quick and nw:
+                    pats += sorted({0, rng.randrange(nw), rng.randrange(nw)} - {nw - 1}) + ["late"]
+                elif ml < top - 3 and nw > 1:
+                    pats = [pats[rng.randrange(len(pats))]]          # (the top of the range keeps both patterns)
+                for p in pats:
+                    pre = rng.choice([0, 0, 1])
+                    ready = [] if p is None else [0, 0, 0, 0, 1, 0, 1, 1, 0, 0, 1] if p == "late" else \
+                        _stall_pattern(pre, p, 1 + (p + sp) % 2)
+                    txs.append({"sp": sp, "ml": ml, "pre": pre, "ready": ready,
+                                "idle_sp": rng.randrange(nwt), "idle_ml": rng.randrange(top + 1)})
+        rng.shuffle(txs)
+        for i in range(0, len(txs), 60):
+            jobs.append((g, txs[i:i + 60], "port-range-sweep"))
+
     # 2c. code -> spec: random constants and schedules beyond the model's bounds
     for _ in range(12 if quick else 400):
-        w = rng.choice([1, 1, 4, 4, 4])
+        w = rng.choice([1, 1, 2, 4, 4, 4])
         n = rng.choice([1, 2, 7, 12, 18, 31, 32, 33, 64, 100]) if w == 1 else rng.choice([1, 2, 6, 10, 15, 16, 17, 30, 63, 64, 65])
         g = {"data": [rng.randrange(256) for _ in range(n)], "w": w, "big": w == 4 and rng.random() < 0.4,
-             "haslen": rng.random() < 0.8, "ser": w == 1 and n <= 34 and rng.random() < 0.4}
+             "haslen": rng.random() < 0.8, "ser": w == 1 and n <= 34 and rng.random() < 0.4,
+             "mlw": rng.choice([None, None, 3, 4, 5, 6, 7])}
+        top = _mlmax(g)
         txs = []
         for _ in range(12 if quick else 30):
             for _ in range(50):
                 sp = rng.randrange(_nwords(g))
-                ml = rng.choice([0, 1, 2, 3, 4, 5, n - 1, n, n + 1, 1000, rng.randrange(n + 3)])
-                if g["ser"]:
-                    ml = min(ml, 255)
+                ml = rng.choice([0, 1, 2, 3, 4, 5, n - 1, n, n + 1, 1000, rng.randrange(n + 3),
+                                 top, top - 1, top - 2, top - 3, rng.randrange(top + 1)])
+                ml = min(max(ml, 0), top)
                 if _legal(g, sp, ml if g["haslen"] else n):
                     break
             else:
@@ -347,13 +404,14 @@ def check_C27(rep):
             p = rng.choice([0.0, 0.2, 0.5, 0.8])
             txs.append({"sp": sp, "ml": ml, "pre": rng.choice([0, 0, 1, 3]),
                         "ready": [int(rng.random() >= p) for _ in range(3 * n // w + 12)],
-                        "idle_sp": rng.randrange(_nwords(g)), "idle_ml": rng.randrange(n + 3)})
+                        "idle_sp": rng.randrange(_nwords(g)), "idle_ml": rng.randrange(min(n + 3, top + 1))})
         jobs.append((g, txs, "random"))
 
     # 3. run on the real modules
     benches = {}
     items = []
     unbuildable = set()
+    by_origin = {}
     for g, txs, origin in jobs:
         key = (tuple(g["data"]),) + _gkey(g)
         if key not in benches:
@@ -372,6 +430,7 @@ def check_C27(rep):
             continue
         trace = benches[key].run(txs)
         rep.add_eval(len(trace["steps"]))
+        by_origin[origin] = by_origin.get(origin, 0) + len(trace["steps"])
         stalled = False
         cur = None
         for r in trace["steps"]:
@@ -385,6 +444,7 @@ def check_C27(rep):
             rep.nontriv(cur + (stalled,))
         items.append((trace, {"dut": "StreamSerializer" if g["ser"] else "ConstantStreamGenerator",
                               "n": len(g["data"]), "w": g["w"], "big": g["big"], "haslen": g["haslen"],
+                              "mlw": benches[key].mlw if g["haslen"] else None,
                               "origin": origin, "transmissions": len(txs)}))
     for dut, why in sorted(unbuildable):
         rep.notes.append("%s built without max_length_width does not elaborate on this tree (%s); that "
@@ -394,6 +454,7 @@ def check_C27(rep):
 
 
     phases["gateware_runs"] = round(time.time() - t0, 1)
+    rep.extra["cycles_by_origin"] = by_origin
     # DRIFT info (never verdict-bearing): start positions beyond the data are outside the property's quantifier
     # ("start position within the data"); record whether the documented clamp (send the last word) is what happens.
     for g in ({"data": data_of(5, 4), "w": 1, "big": False, "haslen": True, "ser": False},
